@@ -81,6 +81,8 @@ def run(tier):
                   [["--families", "lcg:100:1500:3,lcg:90:1300:4", "--alpha", "R9x1", "--big", "--bound", 0, "--direct-bound", 0, "--ks", "2"]]),
                  ("more than 128 candidate cycles: 400 pseudo-random graphs n=18..24, m=3n x 3 pseudo-random weightings in 1..30, exact TBB variants, every reduce outcome on a 12-block grid, Horton reference",
                   [["--families", ",".join("lcg:%d:%d:%d" % (n, 3 * n, sd) for n in (18, 20, 22, 24) for sd in range(100)), "--alpha", "R30x3", "--big", "--big-above", 30, "--bound", 0, "--direct-bound", 0]]),
+                 ("more than 1024 candidate cycles (a reduction range longer than any plausible grain size): K16, K18 and a dense pseudo-random graph n=20, m=150 x 2 pseudo-random weightings in 1..30, exact TBB variants, every reduce outcome on a 12-block grid, Horton reference",
+                  [["--families", "K:16,lcg:20:150:1,K:18", "--alpha", "R30x2", "--big", "--big-above", 30, "--bound", 0, "--direct-bound", 0]]),
                  ("non-integer (dyadic) weights: G(4) x D exact and approximate k=2, bound 1; K6, K7, K7 + pendant vertex, wheel:7 x menu Q36x150 (weights in quarters), exact TBB variants, every reduce outcome",
                   [["--n", 4, "--alpha", "D", "--bound", 1, "--direct-bound", 1], ["--n", 4, "--alpha", "D", "--bound", 1, "--direct-bound", 1, "--ks", "2"],
                    ["--families", "K:6,K:7,Kp:7:1,pK:7:1,wheel:7", "--alpha", "Q36x150", "--bound", 0, "--direct-bound", 0, "--wchunks", 8]]),
@@ -93,6 +95,8 @@ def run(tier):
                   [["--families", "Kp:7:1,pK:7:1,Kp:7:2,pK:7:2,Kp:8:1,pK:8:1,Kp:9:1,K:7,K:8,wheel:7,wheel:8", "--alpha", a, "--bound", 0, "--direct-bound", 0, "--wchunks", 64] for a in ("R3x8000", "R9x8000")]),
                  ("dense core + pendant vertex, K7+1 x R3x2000, signed variant, bound 1 / direct bound 1",
                   [["--families", "Kp:7:1,pK:7:1", "--alpha", "R3x2000", "--bound", 1, "--direct-bound", 1, "--variants", "signed_tbb", "--wchunks", 64]])]
+        plan += [("more than 1024 (up to ~5000) candidate cycles: K16, K18, K20, K24 and dense pseudo-random graphs (n=20 m=150, n=30 m=300) x 3 pseudo-random weightings in 1..30, exact TBB variants, every reduce outcome on a 12-block grid, Horton reference",
+                  [["--families", "K:16,lcg:20:150:1,K:18,K:20,K:24,lcg:30:300:2", "--alpha", "R30x3", "--big", "--big-above", 30, "--bound", 0, "--direct-bound", 0]])]
         plan += [("G(5) with 5..7 edges x PM2, exact x3, every reduce outcome", [["--n", 5, "--alpha", "PM2", "--min-m", 5, "--max-m", 7, "--bound", 0, "--direct-bound", 0]]),
                  ("symmetric families under 300 renumberings x U, bound 0; under 20 renumberings bound 1",
                   [["--families", FAMS_SYM, "--relabel", 300, "--alpha", "U", "--bound", 0, "--direct-bound", 0], ["--families", FAMS_SYM, "--relabel", 20, "--alpha", "U", "--bound", 1, "--direct-bound", 1]])]
@@ -149,9 +153,9 @@ def replay(path):
     b = builds()
     h = (rp.get("replay") or {}).get("harness", "sched_tbb")
     env = dict(os.environ); env["TSAN_OPTIONS"] = "halt_on_error=1 exitcode=66"
-    p = subprocess.run([b[h], "--replay-case", rp["case"]], stdout=subprocess.PIPE, stderr=subprocess.STDOUT, text=True, env=env)
+    p = subprocess.run([b[h], "--replay-case", rp["case"]] + vlib.replay_opts(rp), stdout=subprocess.PIPE, stderr=subprocess.STDOUT, text=True, env=env)
     print(p.stdout[-3000:])
-    if "REPLAY-VIOLATION" in p.stdout or p.returncode == 66:
+    if "REPLAY-VIOLATION" in p.stdout or p.returncode == 66 or p.returncode < 0:
         print("VIOLATION property=C03 replay=%s" % path)
         return 1
     return 0
